@@ -9,6 +9,23 @@ TB = ("Trusted: Lean 4.33 kernel; axioms propext/Classical.choice/Quot.sound onl
       "(generators, canonicalisation, oracle). The tie model<->code is regenerated facts + behavioural correspondence (a search).")
 
 CHECKS = {
+ "C18": dict(
+  text="Lean theorems over the REGENERATED permission tables, gRPC descriptors and per-handler gate facts (decide over the whole tables, lifted to "
+       "every caller/permission code/credential state): every RPC is classified and gated (a new RPC without entries breaks the build); an allowed "
+       "data write implies RW/Admin/SysAdmin on the selected database, an allowed read implies >= R, administration implies admin rights, settings "
+       "changes imply Admin on the named database, and every RPC not classified unauthenticatedOk is refused when the server does not accept the "
+       "credential. 'System database not writable' is FALSE for the code: witness theorem + exact exception list (maintenanceMethods contains "
+       "document writers, ReplicateTx, and SQLQuery gates session transactions). Tie: the real ImmuServer (production interceptor chain, all three "
+       "services) in-process over bufconn; every unary RPC x role x selected database x credential scenario (valid token/session, none, closed, "
+       "unknown, expired, deactivated, re-permissioned, also after several logins; auth-off and maintenance servers) is compared with the model's "
+       "verdict; the oracle (independent of the model) checks that a changed database implies write permission, returned canary data implies read "
+       "permission, systemdb only changes through administration RPCs, and refused credentials change and return nothing.",
+  note=TB + " Modelled rather than verified: the caller is described by what the SERVER holds about the credential (cached user data, login counter, "
+       "session snapshot) - the gap between that and the truth is covered by the oracle only (it found the outdated-login-list defect); SQL GRANT-level "
+       "privileges are an input bit; request validation that precedes the gate is avoided by sending valid requests; remote-client restriction "
+       "with auth disabled, mTLS and the pgsql wire server are not covered.",
+  technique="Lean 4 finite-table proofs (decide + lifting lemmas) + differential gate matrix against the real server + information-flow/state-change oracle",
+  design="7/C18"),
  "C15": dict(
   text="Lean theorems, unbounded in values/lengths: (1) SQL index keys (model of EncodeRawValueAsKey/DecodeValueFromKey, byte layout exact): "
        "key_roundtrip (decode(encode v ++ any tail) = v, consumed = key length, every type incl. NULL), key_width_fixed, key_injective, "
